@@ -5,6 +5,7 @@ import (
 	"go/constant"
 	"go/token"
 	"go/types"
+	"sort"
 	"strings"
 
 	"golang.org/x/tools/go/ssa"
@@ -488,6 +489,40 @@ func checkC03(c *Ctx) {
 		}
 	}
 
+	// ---- C03.7 the handler waits on nothing but the connection: a handler parked on a channel or a wait group is
+	// not reading the probe, and the classification deadline (a read deadline) cannot fire for it
+	r.Rule("C03.7", "the connection handler (and the helpers it calls in its package) never parks on a channel, select or wait group", 1)
+	if h != nil {
+		var ops []string
+		nFn := 0
+		var firstPos token.Pos
+		eachInstrDeep(h, 3, func(in ssa.Instruction, d deepCtx) {
+			if in == d.f.Blocks[0].Instrs[0] {
+				nFn++
+			}
+			if what := parksOn(in); what != "" {
+				if len(ops) == 0 {
+					firstPos = in.Pos()
+				}
+				ops = append(ops, fnName(d.f)+": "+what)
+			}
+		})
+		for _, a := range h.AnonFuncs {
+			eachInstr(a, func(in ssa.Instruction) {
+				if what := parksOn(in); what != "" {
+					ops = append(ops, fnName(a)+": "+what)
+				}
+			})
+		}
+		if len(ops) == 0 {
+			r.OK("C03.7", "handleNewTCPConn: no channel / select / wait-group wait before identification", h.Pos(), fmt.Sprintf("%d functions of the package reachable from the handler scanned", nFn))
+		} else {
+			sort.Strings(ops)
+			r.Bad("C03.7", "handleNewTCPConn: can park on "+firstN(strings.Join(ops, "; "), 120), firstPos, fnName(h),
+				"while the handler waits there it does not read what the peer sends and its deadline cannot fire: depending on the state other connections left behind, a probe is neither consumed nor closed at the deadline", ops...)
+		}
+	}
+
 	// ---- C03.1 (transports) and C03.4
 	impls := wrappingImpls(c)
 	if len(impls) < 3 {
@@ -666,4 +701,29 @@ func findErrGlobal(c *Ctx, qual string) *ssa.Global {
 		}
 	}
 	return nil
+}
+
+
+// parksOn: the instruction can block the goroutine for an unbounded time on something other than I/O: a channel
+// send or receive, a select without default, a WaitGroup or Cond wait. (Mutexes are not counted: the critical
+// sections of this code base are short and lock-order rules cover them.)
+func parksOn(in ssa.Instruction) string {
+	switch x := in.(type) {
+	case *ssa.Send:
+		return "send on " + firstN(pathOf(x.Chan), 40)
+	case *ssa.UnOp:
+		if x.Op == token.ARROW {
+			return "receive from " + firstN(pathOf(x.X), 40)
+		}
+	case *ssa.Select:
+		if x.Blocking {
+			return "select without default"
+		}
+	case *ssa.Call:
+		switch calleeName(&x.Call) {
+		case "(*sync.WaitGroup).Wait", "(*sync.Cond).Wait":
+			return "call " + calleeShort(&x.Call)
+		}
+	}
+	return ""
 }
